@@ -96,7 +96,7 @@ func c09gen(rng *core.Rng, arrays bool) c09table {
 		t.Mode = "simple"
 	} else {
 		t.Mode = "extended"
-		shape := rng.Intn(4)
+		shape := rng.Intn(5)
 		if huge && shape > 1 {
 			shape = 1 // a positional format vector for 40000 columns would exceed the harness servers' message limit
 		}
@@ -104,6 +104,16 @@ func c09gen(rng *core.Rng, arrays bool) c09table {
 		case 0:
 		case 1:
 			t.RFmts = []int16{int16(rng.Intn(2))}
+		case 4:
+			// more than one code but fewer (or more) than columns: the protocol rule does not say which
+			// format the uncovered columns get, but the announced one must still be the one used
+			k := 2 + rng.Intn(len(t.OIDs)+2)
+			for j := 0; j < k; j++ {
+				t.RFmts = append(t.RFmts, int16(rng.Intn(2)))
+			}
+			if rng.Bool() {
+				t.RFmts[0] = 1
+			}
 		default:
 			for range t.OIDs {
 				t.RFmts = append(t.RFmts, int16(rng.Intn(2)))
@@ -118,6 +128,9 @@ func fmtFor(rfmts []int16, i int) int16 {
 	case 0:
 		return 0
 	case 1:
+		return rfmts[0]
+	}
+	if i >= len(rfmts) {
 		return rfmts[0]
 	}
 	return rfmts[i]
@@ -259,6 +272,10 @@ func (ch c09) judge(c *core.Ctx, t c09table, out []byte, closed bool, evs []trEv
 	}
 	for j, cd := range desc.Cols {
 		want := fmtFor(t.RFmts, j)
+		if len(t.RFmts) > 1 && len(t.RFmts) != len(t.OIDs) {
+			want = cd.Format // partial / surplus vector: only "announced = used" is judged
+			c.Count("partial_format_vectors", 1)
+		}
 		if cd.Format != want {
 			return viol("format", "announced format code differs from the result-format rule", fmt.Sprintf("column %d announced %d want %d", j, cd.Format, want))
 		}
